@@ -355,6 +355,7 @@ func (c *simCluster) handleFetch(b *simBroker, r *FetchRequest) (encoderWithHead
 			fb.err = ErrOffsetOutOfRange
 			ev["kind"] = "outofrange"
 		default:
+			pt.lastFetchOff = blk.fetchOffset
 			limit := pt.logEnd()
 			if r.Isolation == ReadCommitted {
 				limit = fb.lso
